@@ -30,9 +30,9 @@ ASSUMPTIONS = ['the harness model of add(): contiguous insertion at the index, e
                'ref/dispatch.py predicts probe answers from the model table']
 
 PROBE_PATHS = ['/r1', '/r2', '/t', '/s/r1', '/s/t', '/s/s/r1', '/s/r2', '/zz']
-PROBE_METHODS = ['GET', 'POST']
+PROBE_METHODS = ['GET', 'POST', 'PUT']
 APP_KINDS = ['K0', 'K1', 'K2', 'K3']
-ENTRY_KINDS = ['R1', 'R2', 'T', 'G']
+ENTRY_KINDS = ['R1', 'R2', 'T', 'G', 'P']
 FAIL_KINDS = ['unresolved', 'conflict', 'badpattern', 'badmw', 'embedded-2nd']
 
 
@@ -46,7 +46,7 @@ class Model(object):
 
     KINDS = {'K0': ([], None), 'K1': (['MW1'], 'r1'), 'K2': (['MW2'], 'r2'), 'K3': (['MW1'], None)}
     SPECS = {'R1': [('/r1', None, 'R1')], 'R2': [('/r2', ['POST'], 'R2')], 'T': [('/t', None, 'T')],
-             'G': [('/r1', ['GET'], 'G')]}
+             'G': [('/r1', ['GET'], 'G')], 'P': [('/r1', ['POST'], 'P')]}
 
     def __init__(self):
         self.model = []
@@ -162,7 +162,7 @@ class World(object):
                 return Response('%s:%s' % (marker, res))
             f.marker = marker
             return f
-        self.eps = dict((m, ep(m)) for m in ('R1', 'R2', 'T', 'G', 'F1', 'F2', 'C1'))
+        self.eps = dict((m, ep(m)) for m in ('R1', 'R2', 'T', 'G', 'P', 'F1', 'F2', 'C1'))
         self.R1 = Route('/r1', self.eps['R1'])
         self.R2 = Route('/r2', self.eps['R2'], methods=['POST'])
         self.snap = self.snapshot_routes()
@@ -200,6 +200,9 @@ class World(object):
             return ('/t', self.eps['T']), [('/t', None, 'T')]
         if kind == 'G':
             return self.GET('/r1', self.eps['G']), [('/r1', ['GET'], 'G')]
+        if kind == 'P':
+            from clastic import POST
+            return POST('/r1', self.eps['P']), [('/r1', ['POST'], 'P')]
         raise ValueError(kind)
 
     def add(self, i, kind, index):
@@ -384,6 +387,12 @@ def step(acc, history, op):
         acc.violation('C11:%s:%s' % (kind, op[0] if op[0] != 'fail' else 'after-fail-' + op[2]),
                       '%s; history %r then %r' % (msg, history, op), case)
         return None
+    if any(e['methods'] for m in w.model for e in m['table']):
+        # the probe requests themselves (incl. 405s) must not have changed anything: probe once more
+        for kind, msg in w.check():
+            acc.violation('C11:%s:after-requests' % kind, '%s; after the probe requests had been served once; history %r then %r'
+                          % (msg, history, op), case)
+            return None
     return w
 
 
